@@ -7,6 +7,11 @@ VERIF = os.path.dirname(os.path.dirname(os.path.abspath(__file__)))
 
 # id -> (level, technique, level text, level note, design ref)
 CLAIMED = {
+    "C31": ("exploration",
+            "deterministic simulation: scripted server object placing PropertiesChanged signals before / with / after the GetAll reply in seeded wire orders; cache compared with a fold over the received history",
+            "A real proxy (cache Yes or Lazily, some properties uncached) talks to a scripted object that delays the GetAll reply and emits changes and invalidations (own and foreign interface) around it and in later rounds. At every quiescent point cached_property, get_property and the last item of a change stream must equal the fold of the snapshot and the later signals in wire order.",
+            "The change stream watches a property that the script never invalidates (reading an invalidated value through the stream refills the cache by design).",
+            "DESIGN.md §3 C31"),
     "C32": ("exploration",
             "deterministic simulation: scripted bus histories (owner lookup result, genuine and forged ownership changes, signals from owner / former owner / strangers) in seeded wire orders around stream creation; owner-tracking reference model",
             "The fake bus places genuine NameOwnerChanged signals, matching signals from three senders, forged ownership claims and unrelated traffic before and after the owner-lookup reply and in later rounds. The yielded sequence must contain exactly the signals whose sender owned the name at their wire position (signals sent while the stream was being created may be missing), in order.",
